@@ -3,6 +3,9 @@ import Frp.Lemmas.Udp
 import Frp.Lemmas.Sudp
 import Frp.Lemmas.UdpSrv
 import Frp.Lemmas.SudpPx
+import Frp.Lemmas.UdpBuf
+import Frp.Model.UdpLayers
+import Frp.Lemmas.Layers
 /-
   C03 — UDP tunnels preserve datagram payloads, boundaries and reply addressing.
 
@@ -19,7 +22,11 @@ import Frp.Lemmas.SudpPx
           Frp/Model/SudpPx.lean (client/proxy/sudp.go InWorkConn: SEVERAL work connections alive at once — one
                                  per visitor connection —, each with its own reader / sender / heartbeat
                                  goroutines, readCh / sendCh, closeFn and Forwarder; the proxy shares only closeCh).
-  Lemmas: Frp/Lemmas/Base64.lean, Frp/Lemmas/Udp.lean, Frp/Lemmas/Sudp.lean, Frp/Lemmas/UdpSrv.lean,
+          Frp/Model/UdpBuf.lean (the read loops of pkg/proto/udp/udp.go with the reused READ BUFFER as explicit state and
+                                 the queue behind them: does a queued message own its bytes?)
+          Frp/Model/UdpLayers.lean (the encryption / compression / limiter wrappers of the connections that carry
+                                 UDPPacket frames, as each of the five sites builds them)
+  Lemmas: Frp/Lemmas/UdpBuf.lean, Frp/Lemmas/Base64.lean, Frp/Lemmas/Udp.lean, Frp/Lemmas/Sudp.lean, Frp/Lemmas/UdpSrv.lean,
           Frp/Lemmas/SudpPx.lean.
 
   Every statement about the forwarding machine is about `run (init …) ls` for an arbitrary label
@@ -1067,6 +1074,201 @@ theorem holdsOnBatch_sound {α} [DecidableEq α] (expected got : List (List α))
 
 example : (([[1, 2, 3], [4], []].map (fun b => packetOf b none none)).map contentOf)
     = [some [1, 2, 3], some [4], some []] := by decide +kernel
+
+/-! ## 9. A queued packet owns its bytes
+
+  `Udp.stepUserSend` / `stepBackendReply` (and their counterparts in `Sudp`, `UdpSrv`, `SudpPx`) enqueue a VALUE.  In
+  memory there is one read buffer per loop, reused for every `ReadFromUDP`, and the message waits in `sendCh` until
+  the sender goroutine of the work connection serialises it — any number of reads later.  `UdpBuf` makes the buffer
+  explicit; `step false` is the code as it is (`NewUDPPacket` encodes `buf[:n]` into a string of its own at once),
+  `step true` keeps `buf[:n]` in the message and encodes when it is serialised. -/
+
+open UdpBuf in
+/-- states of the explicit-buffer machine reached by the code as it is -/
+def BReachable (s : UdpBuf.St) : Prop := ∃ bs cap ls, s = UdpBuf.run false (UdpBuf.init bs cap) ls
+
+/-- the packet a read stands for is the datagram, cut to the buffer, with its sender's address — whatever the buffer
+    held before (either way of enqueueing) -/
+theorem buf_read_packet (byRef : Bool) (s : UdpBuf.St) (a : Addr) (p : Str) (h : s.q.length < s.cap) :
+    (UdpBuf.step byRef s (.read a p)).accepted = s.accepted ++ [packetOf (rd s.bufSize p) none (some a)] := by
+  rw [UdpBuf.step_read_room byRef s a p h]; rfl
+
+/-- **a queued packet owns its bytes**: in every reachable state, what a queued message will be serialised as does
+    not depend on the contents of the read buffer — so no later `ReadFromUDP`, however many, can change it -/
+theorem buf_queued_owns_bytes {s : UdpBuf.St} (h : BReachable s) (ls : List UdpBuf.Label) (m : UdpBuf.QMsg)
+    (hm : m ∈ s.q) :
+    UdpBuf.materialise (UdpBuf.run false s ls).buf m = UdpBuf.materialise s.buf m := by
+  obtain ⟨bs, cap, l0, rfl⟩ := h
+  exact UdpBuf.materialise_owned ((UdpBuf.inv_run (UdpBuf.inv_init bs cap) l0).owned m hm) _ _
+
+/-- **conservation with contents, in order**, for every interleaving of reads and sends: what was serialised so far
+    followed by what waits in the queue is exactly the sequence of datagrams that found room, each as it was when it
+    was read -/
+theorem buf_wire_then_queue {s : UdpBuf.St} (h : BReachable s) :
+    s.wire ++ s.q.map (UdpBuf.materialise s.buf) = s.accepted := by
+  obtain ⟨bs, cap, l0, rfl⟩ := h
+  exact (UdpBuf.inv_run (UdpBuf.inv_init bs cap) l0).cons
+
+/-- … in particular every serialised message is one datagram as it was read, in the order of reading -/
+theorem buf_wire_prefix {s : UdpBuf.St} (h : BReachable s) : s.wire <+: s.accepted :=
+  ⟨_, buf_wire_then_queue h⟩
+
+/-- a BURST: up to `cap` datagrams are read before the first one is serialised — each goes out with its own payload -/
+theorem buf_burst_delivers (bs cap : Nat) (ds : List (Addr × Str)) (hc : ds.length ≤ cap) :
+    (UdpBuf.run false (UdpBuf.init bs cap) (UdpBuf.burst ds)).wire
+      = ds.map (fun d => packetOf (rd bs d.2) none (some d.1)) := by
+  have hinv := UdpBuf.inv_run (UdpBuf.inv_init bs cap) (UdpBuf.burst ds)
+  have hb : UdpBuf.burst ds = ds.map (fun d => UdpBuf.Label.read d.1 d.2) ++ List.replicate ds.length .send := by
+    simp only [UdpBuf.burst, List.map_const']
+  obtain ⟨r1, r2, _⟩ := UdpBuf.reads_room false ds (UdpBuf.init bs cap) (by simpa [UdpBuf.init] using hc)
+  have hq : (UdpBuf.run false (UdpBuf.init bs cap) (UdpBuf.burst ds)).q = [] := by
+    apply List.eq_nil_of_length_eq_zero
+    rw [hb, UdpBuf.run_append, UdpBuf.sends_drain, r1]
+    simp [UdpBuf.init]
+  have hacc : (UdpBuf.run false (UdpBuf.init bs cap) (UdpBuf.burst ds)).accepted
+      = ds.map (fun d => packetOf (rd bs d.2) none (some d.1)) := by
+    rw [hb, UdpBuf.run_append]
+    have : ∀ (n : Nat) (s : UdpBuf.St), (UdpBuf.run false s (List.replicate n .send)).accepted = s.accepted := by
+      intro n
+      induction n with
+      | zero => intro s; rfl
+      | succ n ih =>
+        intro s
+        simp only [List.replicate_succ, UdpBuf.run, List.foldl_cons]
+        have := ih (UdpBuf.step false s .send)
+        rw [show UdpBuf.run false = fun s ls => ls.foldl (UdpBuf.step false) s from rfl] at this
+        rw [this]
+        simp only [UdpBuf.step]
+        split <;> rfl
+    rw [this, r2]
+    simp [UdpBuf.init, UdpBuf.nowOf]
+  have hcons := hinv.cons
+  rw [hq, List.map_nil, List.append_nil] at hcons
+  rw [hcons, hacc]
+
+/-- the explicit-buffer machine (code as it is) holds the same queue as the forwarding machine of §3: for every
+    sequence of datagrams arriving at the public socket, `sendCh` of `Udp.St` is the materialised queue — the value
+    semantics the theorems of §3, §5, §6, §7 rest on is what the memory holds -/
+theorem buf_refines_forwarder (sbs cbs cap : Nat) (ds : List (Addr × Str)) (hb : ∀ d ∈ ds, isBytes d.2 = true) :
+    let s := UdpBuf.run false (UdpBuf.init sbs cap) (ds.map (fun d => .read d.1 d.2))
+    s.q.map (UdpBuf.materialise s.buf) = (run (init sbs cbs cap) (ds.map (fun d => .userSend d.1 d.2))).sSend := by
+  have h0 : UdpBuf.Sim (UdpBuf.init sbs cap) (init sbs cbs cap) :=
+    ⟨fun _ h => by simp [UdpBuf.init] at h, rfl, rfl, rfl⟩
+  exact (UdpBuf.sim_reads ds hb _ _ h0).q
+
+/-- **witness for enqueue-by-reference**: two datagrams back to back (AAA from one user, BB from another), then the
+    sender runs — the first message goes out as "BBA" under the first user's address: a payload nobody sent -/
+theorem buf_byref_witness :
+    let ds := [(ua, [65, 65, 65]), (ub, [66, 66])]
+    (UdpBuf.run true (UdpBuf.init 1500 1024) (UdpBuf.burst ds)).wire
+      = [packetOf [66, 66, 65] none (some ua), packetOf [66, 66] none (some ub)] ∧
+    (UdpBuf.run true (UdpBuf.init 1500 1024) (UdpBuf.burst ds)).wire
+      ≠ (UdpBuf.run true (UdpBuf.init 1500 1024) (UdpBuf.burst ds)).accepted ∧
+    (UdpBuf.run false (UdpBuf.init 1500 1024) (UdpBuf.burst ds)).wire
+      = [packetOf [65, 65, 65] none (some ua), packetOf [66, 66] none (some ub)] := by
+  decide +kernel
+
+/-- … and why request / reply traffic never shows it: when every datagram is serialised before the next one is read,
+    enqueue-by-reference produces the same wire as the code as it is -/
+theorem buf_byref_pingpong_unobservable (bs cap : Nat) (hc : 0 < cap) (ds : List (Addr × Str)) :
+    (UdpBuf.run true (UdpBuf.init bs cap) (UdpBuf.pingPong ds)).wire
+      = ds.map (fun d => packetOf (rd bs d.2) none (some d.1)) := by
+  have := (UdpBuf.byref_pingpong ds (UdpBuf.init bs cap) rfl hc).2.1
+  simpa [UdpBuf.init, UdpBuf.nowOf] using this
+
+/-- burst op: `E` = the datagrams of a burst as the model serialises them (`buf_burst_delivers`), `B` what arrived -/
+def holdsOnBurst {α} [DecidableEq α] (E B : List α) : Bool := msEq B E
+
+theorem holdsOnBurst_sound {α} [DecidableEq α] (E B : List α) : holdsOnBurst E B = true ↔ MsEq B E :=
+  msEq_sound B E
+
+example : BReachable (UdpBuf.run false (UdpBuf.init 4 8) [.read ua [1, 2, 3, 4, 5], .read ub [9], .send]) :=
+  ⟨4, 8, _, rfl⟩
+example : (UdpBuf.run false (UdpBuf.init 4 8) [.read ua [1, 2, 3, 4, 5], .read ub [9], .send, .send]).wire
+    = [packetOf [1, 2, 3, 4] none (some ua), packetOf [9] none (some ub)] := by decide +kernel
+example : (UdpBuf.run true (UdpBuf.init 4 8) [.read ua [1, 2, 3, 4, 5], .read ub [9], .send, .send]).wire
+    = [packetOf [9, 2, 3, 4] none (some ua), packetOf [9] none (some ub)] := by decide +kernel
+
+/-! ## 10. Both ends of a connection that carries UDPPackets build the same wrapper stack
+
+  (as C01 `mirror_proxy` / `mirror_order` do for the tcp path; here for the five sites of the udp / sudp path) -/
+
+open Layers UdpLayers
+
+/-- udp proxy: frps (server/proxy/udp.go Run) and frpc (client/proxy/udp.go InWorkConn) agree on the
+    byte-transforming layers of the work connection, for every option combination … -/
+theorem udp_layers_mirror (o : Opts) : transforming (srvUdpWrap o) = transforming (cliUdpWrap o) := by
+  cases o with | mk e c ls lc => cases e <;> cases c <;> cases ls <;> cases lc <;> rfl
+
+/-- … namely encryption next to the wire and compression above it, at both ends -/
+theorem udp_layers_order (o : Opts) :
+    transforming (srvUdpWrap o) = opt o.enc .enc ++ opt o.comp .comp ∧
+    transforming (cliUdpWrap o) = opt o.enc .enc ++ opt o.comp .comp := by
+  cases o with | mk e c ls lc => cases e <;> cases c <;> cases ls <;> cases lc <;> exact ⟨rfl, rfl⟩
+
+/-- sudp: the work connection (frps: handleUserTCPConnection, frpc: client/proxy/sudp.go InWorkConn) and the visitor
+    connection (client/visitor/sudp.go, server/visitor/visitor.go NewConn) -/
+theorem sudp_layers_mirror (o : Opts) (e c : Bool) :
+    transforming (serverStack o) = transforming (cliSudpWrap o) ∧ visSudpWrap e c = visitorServerStack e c := by
+  cases o with | mk e' c' ls lc => cases e' <;> cases c' <;> cases ls <;> cases lc <;> exact ⟨rfl, rfl⟩
+
+/-- these are the stacks C01 reasons about (`Layers.serverUdpStack` / `clientUdpStack`), so its transparency and
+    close-propagation theorems speak about the udp work connection as modelled here -/
+theorem udp_layers_are_C01s (o : Opts) :
+    srvUdpWrap o = serverUdpStack o ∧ cliUdpWrap o = clientUdpStack o ∧ cliSudpWrap o = clientUdpStack o :=
+  ⟨rfl, rfl, rfl⟩
+
+/-- the other order (compression next to the wire) is understood by the peer exactly when at most one of the two
+    options is set: a site that swapped the two wrappers would break precisely the proxies with BOTH -/
+theorem udp_layers_swapped_iff (o : Opts) :
+    compatible (swappedWrap o) (cliUdpWrap o) = !(o.enc && o.comp) := by
+  cases o with | mk e c ls lc => cases e <;> cases c <;> cases ls <;> cases lc <;> rfl
+
+/-- transparency of the udp work connection: with any lawful cipher / compression layers, what frpc's stack decodes
+    from everything frps' stack put on the wire is what was written (frames of UDPPackets arrive intact), for every
+    option combination -/
+theorem udp_workconn_transparent {encL compL : Layer} (he : Lawful encL) (hc : Lawful compL) (burst : Nat)
+    (o : Opts) (ps cs : List C01Bytes)
+    (hw : cs.flatten = ((stackLayer (instantiate encL compL burst (transforming (srvUdpWrap o)))).Eout ps).flatten) :
+    (stackLayer (instantiate encL compL burst (transforming (cliUdpWrap o)))).Dout cs = ps.flatten := by
+  rw [← udp_layers_mirror]
+  refine transparent_complete (stack_lawful _ ?_) ps cs hw
+  intro l hl
+  cases o with | mk e c ls lc =>
+    cases e <;> cases c <;> cases ls <;> cases lc <;>
+      simp [srvUdpWrap, transforming, opt, instantiate] at hl <;>
+      (try rcases hl with hl | hl) <;> (try subst hl) <;> first | exact he | exact hc
+
+/-- non-vacuity and counter-example: two lawful toy layers (a 2-byte header + shift as "cipher", a 1-byte header +
+    neighbour swap as "compression") -/
+def toySwap (x : Nat) : Nat := if x % 2 = 0 then x + 1 else x - 1
+def toyEnc : Layer := headerMap [7, 7] (fun x => x + 1) (fun x => x - 1)
+def toyComp : Layer := headerMap [9] toySwap toySwap
+def bothOn : Opts := { enc := true, comp := true, limSrv := false, limCli := false }
+
+theorem toy_layers_lawful : Lawful toyEnc ∧ Lawful toyComp := by
+  refine ⟨headerMap_lawful _ _ _ (fun x => by omega), headerMap_lawful _ _ _ (fun x => ?_)⟩
+  simp only [toySwap]
+  split <;> split <;> omega
+
+/-- with the stacks as they are the frame arrives; with the two wrappers swapped at the server it does not -/
+theorem udp_layers_swapped_witness :
+    (stackLayer (instantiate toyEnc toyComp 1 (transforming (cliUdpWrap bothOn)))).Dout
+        ((stackLayer (instantiate toyEnc toyComp 1 (transforming (srvUdpWrap bothOn)))).Eout [[0, 1, 2]]) = [0, 1, 2] ∧
+    (stackLayer (instantiate toyEnc toyComp 1 (transforming (cliUdpWrap bothOn)))).Dout
+        ((stackLayer (instantiate toyEnc toyComp 1 (swappedWrap bothOn))).Eout [[0, 1, 2]]) ≠ [0, 1, 2] := by
+  decide
+
+/-! ## 11. client side of a udp proxy fed a TYPED stream (the theorems are in Props/C03Wire.lean) -/
+
+/-- client-side proxy op (`upx`): `allowed` = datagrams the backend may see that no user sent = the messages of the
+    script that the real server end never writes (they are outside the property's domain); `extra` = what it saw -/
+def holdsOnUpx {α} [DecidableEq α] (E B Rs R : List α) (extra allowed : Nat) : Bool :=
+  msEq B E && msEq R Rs && decide (extra ≤ allowed)
+
+theorem holdsOnUpx_sound {α} [DecidableEq α] (E B Rs R : List α) (extra allowed : Nat) :
+    holdsOnUpx E B Rs R extra allowed = true ↔ MsEq B E ∧ MsEq R Rs ∧ extra ≤ allowed := by
+  simp only [holdsOnUpx, Bool.and_eq_true, msEq_sound, decide_eq_true_eq, and_assoc]
 
 end C03
 end Frp
